@@ -323,6 +323,7 @@ retry:
                     arg_r_end = scan_endpoint::INF;
                 }
             }
+            YAKUSHIMA_VERIF_HOOK(YAKUSHIMA_VERIF_LAYER, nullptr);
             check_status =
                     scan(next_layer, arg_l_key, arg_l_end, arg_r_key, arg_r_end,
                          tuple_list, node_version_vec, full_key, max_size, right_to_left);
